@@ -63,6 +63,7 @@ class Slice:
 class Slicer:
     def __init__(self):
         self.src_cache = {}
+        self.local_init = {}
 
     def canon(self, n):
         """source-independent rendering of an expression subtree (used as the identity of opaque conditions)"""
@@ -206,6 +207,11 @@ class Slicer:
                 self.walk_stmt(c, guards, env, sl, mode)
             return
         if k == 'DeclStmt':
+            # locals initialised once (`const NiFileVersion fileVersion = stream.GetVersion().File();`): conditions over them are
+            # rendered through their initialiser
+            for v in I:
+                if v.get('kind') == 'VarDecl' and v.get('inner') and not v['type']['qualType'].strip().endswith('&'):
+                    self.local_init[v['id']] = v['inner'][0]
             # references bound to elements: `auto& x = vec[i];`
             for v in I:
                 if v.get('kind') == 'VarDecl' and v.get('inner') and v['type']['qualType'].strip().endswith('&'):
@@ -328,6 +334,8 @@ class CGen:
                     return str(v) + 'u'
             if ('idx', rd.get('id')) in env:
                 return 'gh_i'
+            if rd.get('id') in self.S.local_init:
+                return self.e(self.S.local_init[rd['id']], cls, env)
         if k == 'MemberExpr':
             p = self.S.path(n, env)
             if p is not None and '[]' not in p:
